@@ -38,7 +38,9 @@ fn main() {
         Some("worker") => {
             // deep graphs recurse in the library's backward pass: give the worker a large stack
             let a = args[2..].to_vec();
-            let mb: usize = std::env::var("CVH_STACK_MB").ok().and_then(|s| s.parse().ok()).unwrap_or(1024);
+            // parameters come through argv (Miri does not reliably see the shell environment)
+            let argval = |name: &str| a.iter().position(|x| x == name).and_then(|i| a.get(i + 1)).and_then(|v| v.parse::<usize>().ok());
+            let mb: usize = argval("--stack-mb").or_else(|| std::env::var("CVH_STACK_MB").ok().and_then(|s| s.parse().ok())).unwrap_or(1024);
             let h = std::thread::Builder::new().stack_size(mb << 20).spawn(move || cmd_worker(&a)).unwrap();
             h.join().unwrap_or(4)
         }
@@ -64,10 +66,15 @@ fn main() {
     }
 }
 
+static LIMIT: std::sync::OnceLock<Option<u64>> = std::sync::OnceLock::new();
+
 fn run_cases(def: &CheckDef, ctx: &mut Ctx, shard: u64, nshards: u64, progress: Option<&Path>) {
     let fams = (def.families)(ctx.tier);
     // sanitizer stages run a prefix of every family (orders of magnitude slower per case)
-    let limit: Option<u64> = std::env::var("CVH_LIMIT").ok().and_then(|s| s.parse().ok());
+    let limit: Option<u64> = LIMIT.get().copied().flatten().or_else(|| std::env::var("CVH_LIMIT").ok().and_then(|s| s.parse().ok()));
+    if std::env::var("CVH_DEBUG").is_ok() {
+        eprintln!("run_cases: limit={:?} shard={}/{} families={:?}", limit, shard, nshards, fams);
+    }
     for (fam, count) in fams {
         let count = limit.map_or(count, |l| count.min(l));
         for k in 0..count {
@@ -117,6 +124,11 @@ fn cmd_worker(a: &[String]) -> i32 {
                 i += 1;
             }
             "--meta" => meta = true,
+            "--limit" => {
+                let _ = LIMIT.set(a[i + 1].parse().ok());
+                i += 1;
+            }
+            "--stack-mb" => i += 1,
             _ => {}
         }
         i += 1;
